@@ -16,6 +16,7 @@ ACL_BODIES = {
             "C-3": ("extended", ["permit icmp any any"]),
             "D4": ("extended", ["permit ip object-group G1 object-group G1", "deny tcp object-group G2 object-group G1 eq 22", "permit ip object-group G1 object-group G2"]),
             "E5": ("extended", ["remark ----------", "permit ip any any", "remark ----------", "permit ip any any", "remark ----------"]),
+            "Z0": ("extended", []),          # an access list that is defined but has no entries (yet)
             # long lines: a remark with 100 characters of text, an entry of more than 100 characters
             "L6": ("extended", ["remark " + "change 4711 approved by the network board on 2024-01-31, see ticket NET-000123 for the complete story"[:100].ljust(100, "."),
                                 "permit tcp 192.168.100.0 0.0.0.255 range 10000 20000 192.168.200.0 0.0.0.255 range 30000 40000 ack fin psh rst syn urg log-input",
@@ -25,6 +26,7 @@ ACL_BODIES = {
              "C-3": ("extended", ["permit icmp any any"]),
              "D4": ("extended", ["permit ip addrgroup G1 addrgroup G1", "deny tcp addrgroup G2 addrgroup G1 eq 22", "permit ip addrgroup G1 addrgroup G2"]),
              "E5": ("extended", ["remark ----------", "permit ip any any", "remark ----------", "permit ip any any", "remark ----------"]),
+             "Z0": ("extended", []),
              "L6": ("extended", ["10 remark " + "change 4711 approved by the network board on 2024-01-31, see ticket NET-000123 for the complete story"[:100].ljust(100, "."),
                                  "4294967290 permit tcp 192.168.100.0 0.0.254.255 range 10000 20000 192.168.200.0 0.0.254.255 range 30000 40000 ack fin psh rst syn urg log",
                                  "4294967295 deny ip any any"])},
